@@ -40,6 +40,9 @@ class _RemoveOptionalBias(RewriteRuleClassBase):
         bias_tensor = ir.convenience.get_const_tensor(b)
         if bias_tensor is None:
             return check_result.fail("Bias is not a constant/initializer.")
+        if b.is_graph_input():
+            # The initializer is only a default value that can be overridden.
+            return check_result.fail("Bias is a graph input.")
 
         # Check if bias is all zeros
         bias_array = bias_tensor.numpy()
